@@ -173,6 +173,7 @@ func runC08(c *an.Ctx) {
 	}
 	c08IncludeGraph(c)
 	ruleP5(c)
+	ruleP6(c)
 	// information: explicit panics in package syntax outside the parse stage
 	nPanic := 0
 	for _, fn := range p.FuncsOf(pkgSyntax) {
